@@ -1050,7 +1050,28 @@ fn bindings(repo: &Path) -> Result<String, String> {
         ));
     }
     o.push_str("]\n\n");
-    o.push_str("def names : List (String × String) := table.map fun b => (b.script, b.name)\n");
+    o.push_str("def names : List (String × String) := table.map fun b => (b.script, b.name)\n\n");
+    // bodies that are algorithms (second hop `<algorithm>`): their statements, token text
+    o.push_str("/-- the statements of the string.rs methods that are algorithms (what Model/Strings.lean transcribes) -/\n");
+    o.push_str("def algorithms : List (String × List String) := [\n");
+    let algos: Vec<&Binding> = table.iter().filter(|b| b.std == "<algorithm>").collect();
+    for (i, b) in algos.iter().enumerate() {
+        let m = b
+            .call
+            .strip_prefix("self.")
+            .or_else(|| b.call.strip_prefix(&format!("{}::", b.ty)))
+            .ok_or_else(|| format!("{}.{}: cannot locate the algorithm behind call `{}`", b.script, b.name, b.call))?;
+        let f = inherent_fn(&src.string, STRING, &b.ty, m)?
+            .ok_or_else(|| format!("{}.{}: {}::{m} not found in {STRING}", b.script, b.name, b.ty))?;
+        let stmts: Vec<String> = f.block.stmts.iter().map(|s| txt(s)).collect();
+        o.push_str(&format!(
+            "  ({}, {}){}\n",
+            lean_str(&format!("{}::{m}", b.ty)),
+            lean_list(&stmts),
+            if i + 1 < algos.len() { "," } else { "" }
+        ));
+    }
+    o.push_str("]\n");
     o.push_str("\nend RotoV.Gen.Bindings\n");
     Ok(o)
 }
